@@ -129,6 +129,19 @@ impl<'a> DsvCursor<'a> {
         core::str::from_utf8(self.current_field())
     }
 
+    /// True when the cursor sits at end of input immediately after an unquoted
+    /// delimiter (not a record separator): the row then ends with one more,
+    /// empty, field — `a,` has the same two fields as `a,\n`.
+    fn after_trailing_delimiter(&self) -> bool {
+        let len = self.text.len();
+        if len == 0 || self.position != len {
+            return false;
+        }
+        let is_marker = self.index.markers_rank1(len) > self.index.markers_rank1(len - 1);
+        let is_newline = self.index.newlines_rank1(len) > self.index.newlines_rank1(len - 1);
+        is_marker && !is_newline
+    }
+
     /// Check if the current byte is a newline marker.
     fn at_newline(&self) -> bool {
         if self.position == 0 || self.position > self.text.len() {
@@ -178,7 +191,7 @@ impl<'a> DsvRow<'a> {
             ..self.cursor
         };
 
-        for _ in 0..column {
+        for i in 0..column {
             // Check if we hit a newline before reaching the column
             let field = cursor.current_field();
             if field.is_empty() && cursor.at_end() {
@@ -186,6 +199,11 @@ impl<'a> DsvRow<'a> {
             }
 
             if !cursor.next_field() {
+                // A delimiter as the last byte of the input is followed by one
+                // empty field (same as when a record separator follows it).
+                if i + 1 == column && cursor.after_trailing_delimiter() {
+                    return Some(&cursor.text[cursor.text.len()..]);
+                }
                 return None;
             }
 
@@ -280,6 +298,11 @@ impl<'a> Iterator for DsvFields<'a> {
         // Move to next field
         if !self.cursor.next_field() {
             self.finished = true;
+            // A delimiter as the last byte of the input is followed by one
+            // empty field (same as when a record separator follows it).
+            if self.cursor.after_trailing_delimiter() {
+                return Some(&self.cursor.text[self.cursor.text.len()..]);
+            }
             return None;
         }
 
